@@ -9,6 +9,7 @@ import RbV.Lemmas.PoaHistory
 import RbV.Lemmas.PoaBound
 import RbV.Lemmas.PoaConsensus
 import RbV.Lemmas.PoaBandedFull
+import RbV.Lemmas.PoaModes
 /-!
 # C16 — partial-order alignment: exact on linear graphs, graph stays a growing DAG
 
@@ -232,17 +233,57 @@ theorem model_banded_full_band_equals_global (sc : Sc) (labels : List Nat) (es :
       (Poa.Model.globalAlign sc labels es query).1 :=
   Poa.Model.bandedScore_full sc labels es query bw ⟨hne, hwf, hac⟩ hbw hgap hmin
 
-/-- **partial** for the alignment modes whose DP is not mirrored (`semiglobal`, `local`, `custom`, narrow
-`global_banded`).  Full statement wanted: for every acyclic graph and every operation list produced by *any*
-of the aligner's modes, `addAlignment g ops seq` is acyclic.  Proved here: the conclusion for every operation
-list that *names nodes in increasing rank* (`bodyB`: each `Match(Some((_, p)))` lies above the rank bound of
-`prev`, with room for the nodes created in between; the inserted prefix `Ins(None)…` stays below the head)
-where `rk` is any rank function increasing along the old edges — `Ins(None)`, `Match(None)`, mismatches,
-clips, skipped nodes all covered.  For `global` the hypothesis is discharged (`model_align_add_preserves_acyclic`).
-Missing for the other modes: a model of their tables (clip cells) and the proof that its traceback emits such
-lists.  In its place the driver evaluates the hypothesis on every observed list of every mode (`acyclicCert`,
-tag `acyclic-cert`), and the model's result is compared with the real dump (`drift-add`). -/
-theorem model_add_preserves_acyclic_partial (g : Poa.Model.G) (rk : Nat → Nat) (ops : List POp) (seq : List Nat)
+/-- **every alignment mode keeps the graph a DAG** (DESIGN [C], full statement).  `stepAdd sc cl g mode q` is
+`add_to_graph()` after `global` / `semiglobal` / `local` / `custom` (configured clip penalties `cl`) /
+`global_banded(bw)` (any bandwidth, narrow bands with their out-of-band cells included) in the *faithful*
+models `customTable` / `bandedTable` (every `MIN_SCORE` start cell, prefix and suffix clip cells, the three
+out-of-band answers of `Traceback::get`; the driver compares their score and operation list with the real
+output on every step of every mode: 0 differences).  For every non-empty well-formed DAG, scoring, clip
+penalties, mode and query the result is a non-empty well-formed DAG.  Proof: both tables are *local*
+(`customTable_opsOK`, `bandedTable_opsOK`: a cell points into its own row, to the row of a predecessor, to
+row 0, down the first column, or — suffix clips — out of the last row, behind which nothing is named), so
+the traceback names nodes in strictly increasing topological rank (`traceF_bodyB`). -/
+theorem model_every_mode_add_preserves_acyclic (sc : Sc) (cl : Poa.Model.Clips) (g : Poa.Model.G)
+    (mode : Poa.Model.Mode) (q : List Nat)
+    (hne : g.labels ≠ [])
+    (hwf : ∀ e ∈ g.es, e.1 < g.labels.length ∧ e.2.1 < g.labels.length)
+    (hac : ∀ v, ¬ Reach (plain g.es) v v) :
+    (Poa.Model.stepAdd sc cl g mode q).labels ≠ [] ∧
+    (∀ e ∈ (Poa.Model.stepAdd sc cl g mode q).es,
+      e.1 < (Poa.Model.stepAdd sc cl g mode q).labels.length ∧
+      e.2.1 < (Poa.Model.stepAdd sc cl g mode q).labels.length) ∧
+    ∀ v, ¬ Reach (plain (Poa.Model.stepAdd sc cl g mode q).es) v v :=
+  let h := Poa.Model.stepAdd_dag sc cl g mode q ⟨hne, hwf, hac⟩
+  ⟨h.ne, h.wf, h.acyclic⟩
+
+/-- **"after any series of additions", every mode**: from the chain of a non-empty reference, any list of
+steps (scoring, configured clip penalties, mode, query): end points in range, no directed cycle -/
+theorem model_history_all_modes_acyclic (x : List Nat) (hx : x ≠ []) (steps : List Poa.Model.HStep) :
+    (∀ e ∈ (Poa.Model.historyM x steps).es,
+      e.1 < (Poa.Model.historyM x steps).labels.length ∧ e.2.1 < (Poa.Model.historyM x steps).labels.length) ∧
+    ∀ v, ¬ Reach (plain (Poa.Model.historyM x steps).es) v v :=
+  let h := Poa.Model.historyM_dag x hx steps
+  ⟨h.wf, h.acyclic⟩
+
+/-- … the graph only grows along such a history … -/
+theorem model_history_all_modes_only_grows (x : List Nat) (steps more : List Poa.Model.HStep) :
+    Extends (Poa.Model.historyM x steps).labels (Poa.Model.historyM x steps).es
+      (Poa.Model.historyM x (steps ++ more)).labels (Poa.Model.historyM x (steps ++ more)).es :=
+  (Poa.Model.historyM_grows x steps more).extends
+
+/-- … and its consensus is always a non-empty word spelled by a path -/
+theorem model_history_all_modes_consensus_is_path (x : List Nat) (hx : x ≠ []) (steps : List Poa.Model.HStep) :
+    ∃ w, Poa.Model.consensus (Poa.Model.historyM x steps).labels (Poa.Model.historyM x steps).es = some w ∧ w ≠ [] ∧
+      Spelled (Poa.Model.historyM x steps).labels (plain (Poa.Model.historyM x steps).es) w :=
+  Poa.Model.consensus_path _ _ (Poa.Model.historyM_dag x hx steps)
+
+/-- the general lemma behind both: `add_alignment` along *any* operation list that names nodes in increasing
+rank (`bodyB`: each `Match(Some((_, p)))` lies above the rank bound of `prev`, with room for the nodes created
+in between; the inserted prefix `Ins(None)…` stays below the head) keeps the graph acyclic, `rk` being any rank
+function increasing along the old edges.  (The former `…_partial`: its hypothesis is now discharged for the
+operation lists of every mode of the model, see above; it is still what the driver's certificate
+`acyclicCert` evaluates on the operation lists of the *real* code.) -/
+theorem model_add_preserves_acyclic_of_ranked_ops (g : Poa.Model.G) (rk : Nat → Nat) (ops : List POp) (seq : List Nat)
     (hrk : ∀ e ∈ g.es, e.1 < g.labels.length ∧ e.2.1 < g.labels.length ∧ rk e.1 < rk e.2.1)
     (hhead : (Poa.Model.topo g.labels.length g.es).headD 0 < g.labels.length)
     (hbody : Poa.Model.bodyB rk g.labels.length ((Poa.Model.topo g.labels.length g.es).headD 0)
@@ -287,6 +328,9 @@ example : (Poa.Model.history [65, 67, 71] [(exSc, [65, 84, 71]), (exSc, [65, 84,
 example : Poa.Model.bandedScore exSc Poa.Model.minScore Poa.Model.minScore [65, 67, 71] [(0, 1, 1), (1, 2, 1)] [65, 84, 71] 3 = 1 := by decide
 example : (Poa.Model.globalAlign exSc [65, 67, 71] [(0, 1, 1), (1, 2, 1)] [65, 84, 71]).1 = 1 := by decide
 example : Poa.Model.minScore < ((3 + 3 + 1 : Nat) : Int) * exSc.gap := by decide
+-- faithful models: local alignment of TT against ACGTT clips the prefix; a narrow band gives a junk list; both additions keep a DAG
+example : (Poa.Model.customAlign exSc 0 0 0 0 [65, 67, 71, 84, 84] [(0, 1, 1), (1, 2, 1), (2, 3, 1), (3, 4, 1)] [84, 84]).1 = 2 := by decide
+example : (Poa.Model.historyM [65, 67, 71, 84, 84] [(exSc, ⟨0, 0, 0, 0⟩, .local, [84, 84]), (exSc, ⟨0, 0, 0, 0⟩, .banded 1, [71, 71, 71, 84])]).labels.length = 8 := by decide
 -- a DAG with a bubble is accepted, a 3-cycle is not
 example : isAcyclic 4 [(0, 1), (1, 2), (0, 3), (3, 2)] = true := by decide
 example : isAcyclic 3 [(0, 1), (1, 2), (2, 0)] = false := by decide
